@@ -6,11 +6,13 @@ from oracle_util import *  # noqa
 from protocol import from_real
 
 ID = "C11"
-LEAN_MODULE = "SCoda.Props.C11"
+LEAN_MODULE = ["SCoda.Props.C11", "SCoda.Props.C11b"]
 CLAUSES = [
     ("every public operation with integer arguments leaves every time value in both views integer-typed "
      "(layer 1: the Lean model is Int-typed and the correspondence prints Python times with their type — by construction, no theorem)", None),
-    ("the capacity / bar-length expressions of Bar, the bar splitter and the tokeniser are int-typed and equal the model's floor division (PyNum)", None),
+    ("the capacity / bar-length expressions of Bar, the bar splitter and the tokeniser are int-typed and equal the model's floor division (PyNum); int()/round() always return ints",
+     ["SCoda.C11.barCapacityPy_int", "SCoda.C11.splitBarLenPy_int", "SCoda.C11.tokCapacityPy_int", "SCoda.C11.barCapacityPy_eq",
+      "SCoda.C11.splitBarLenPy_eq", "SCoda.C11.tokCapacityPy_eq", "SCoda.C11.pyround_int", "SCoda.C11.pyint_int"]),
     ("every float-introducing expression site of the modelled files is inside int(...)/round(...) or is a known, argued site; "
      "the evaluated default step sizes, note values and velocity bins are int-typed",
      ["SCoda.C11.sites_guarded", "SCoda.C11.known_sites_exist", "SCoda.C11.defaults_int_typed"]),
